@@ -408,6 +408,9 @@ type wrapCase struct {
 	// Phred-offset encoding and the encode/decode round trip is repeated under it: the container
 	// follows its current encoding, not the one it had when it was first used
 	Enc2 int8
+	// ViaCopy: everything is asked of copies (Copy of the score containers, Clone of the sequence): a copy
+	// is a container of the same encoding
+	ViaCopy bool
 }
 
 func genWrap(t *rapid.T) wrapCase {
@@ -427,6 +430,7 @@ func genWrap(t *rapid.T) wrapCase {
 	c.SetPos = rapid.IntRange(0, n-1).Draw(t, "setpos")
 	c.SetX = rapid.IntRange(0, 2500).Draw(t, "setx")
 	c.Enc2 = int8(rapid.SampledFrom(phredEncs).Draw(t, "enc2"))
+	c.ViaCopy = rapid.IntRange(0, 2).Draw(t, "via-copy") == 0
 	return c
 }
 
@@ -457,6 +461,12 @@ func checkWrap(c wrapCase) *vlib.Failure {
 		}
 		q := quality.NewSolexa("q", qs, e)
 		q.Offset = c.Offset
+		if c.ViaCopy {
+			q = q.Copy().(*quality.Solexa)
+			if q.Encoding() != e {
+				return vlib.Failf("wrap-copy-encoding", "the Copy of a Solexa container under %s has the encoding %s", encNames[e], encNames[q.Encoding()])
+			}
+		}
 		for i, s := range c.Scores {
 			pos := c.Offset + i
 			if q.At(pos) != alphabet.Qsolexa(s) {
@@ -497,6 +507,13 @@ func checkWrap(c wrapCase) *vlib.Failure {
 	q.Offset = c.Offset
 	ls := linear.NewQSeq("s", ql, alphabet.DNA, e)
 	ls.Offset = c.Offset
+	if c.ViaCopy {
+		q = q.Copy().(*quality.Phred)
+		ls = ls.Clone().(*linear.QSeq)
+		if q.Encoding() != e || ls.Encoding() != e {
+			return vlib.Failf("wrap-copy-encoding", "the Copy of a Phred container / the Clone of a sequence under %s have the encodings %s / %s", encNames[e], encNames[q.Encoding()], encNames[ls.Encoding()])
+		}
+	}
 	for i, s := range c.Scores {
 		pos := c.Offset + i
 		want := math.Pow(10, -float64(s)/10)
@@ -598,9 +615,12 @@ func TestWrappers(t *testing.T) {
 	vlib.Run(t, vlib.Prop[wrapCase]{Name: "score-containers", Checks: 3000, Thorough: 200000, Gen: genWrap, Check: checkWrap,
 		Classes: func(c wrapCase) []string {
 			l := []string{encNames[alphabet.Encoding(c.Enc)]}
+			if c.ViaCopy {
+				l = append(l, "asked-of-copies")
+			}
 			if len(c.Scores) >= 2 && c.Offset != 0 {
 				l = append(l, vlib.NT)
 			}
 			return l
-		}})
+		}, MinFrac: map[string]float64{"asked-of-copies": 0.2}})
 }
